@@ -5,3 +5,5 @@ open OrxPar
 #print axioms C10_progress
 #print axioms C10_seq
 #print axioms C10_seq_prefix
+#print axioms C10_terminates_fair
+#print axioms C10_terminates_fair_finite
